@@ -492,7 +492,7 @@ func Run(cfg Config, ch Chooser) Result {
 				viol("result: returned error is not the error of a visitor that ran: " + out.err.Error())
 			}
 		}
-		if out.err == nil && !callerCancelled { // a cancelled walk may return nil with services never started (DESIGN 11.7)
+		if out.err == nil { // nil only when all services were visited, whoever cancelled
 			for n := 1; n <= cfg.N; n++ {
 				want := 0
 				if cfg.Expected(n) {
